@@ -329,12 +329,20 @@ LITERALS = ["0", "1", "007", "10", "1.5", "1.", ".5", "0.1", "0.3000000000000000
             "0b0", "0b1", "0B101", "0b1_0", "0b_11", "0b1111111111111111111111111111111111111111111111111111111111111111", "0_x10"]
 
 
+# long integer significands with an exponent: conversions that go through an intermediate rounding (integer -> double, then a
+# multiplication by a power of ten) are wrong for some of these; a correctly rounded reader is not
+LITERALS += ["%d%s%d" % (sig, e, k) for sig in (2 ** 53 + 1, 2 ** 53 + 3, 1234567890123456789, 9999999999999999999, 18446744073709551615, 12345678901234567, 90071992547409935)
+             for k in (0, 1, 2, 5, 10, 15, 22, 23) for e in ("e", "E+")]
+LITERALS += ["%s%s%d" % (sig, e, k) for sig in ("0.30000000000000004", "9007199254740993.5", "1.7976931348623157", "4.9406564584124654", "123456789.012345678901")
+             for k in (-324, -308, -5, 0, 5, 300, 308) for e in ("e", "E")]
+
+
 def numbers_read(R, ctx, tier):
     rid = "C13.numbers-read"
     lib = ctx.lib
     from ..luaref import read_number_text
     R.rule(rid, "NumberExpression::from_str followed by compute_value, evaluated from the typed tree on %d literals (decimal, fraction, exponent "
-                "of either case and sign, 17+ digit and out-of-range magnitudes, halfway cases near the smallest subnormal, hexadecimal and binary "
+                "of either case and sign, 17-20 digit significands with exponents 0..23, out-of-range magnitudes, halfway cases near the smallest subnormal, hexadecimal and binary "
                 "up to 64 bits, underscores in every position Luau allows): the value equals what an independent reader of Luau's number "
                 "syntax gives, bit for bit" % len(LITERALS))
     fs = lib.fn("<%sNumberExpression as core::str::traits::FromStr>::from_str" % NUM)
